@@ -87,6 +87,9 @@ def tasks(tier, seed):
     for exc in names:
         for mode in ("exposure", "observation"):
             out.append({"fn": "crash", "kwargs": {"steps": 2, "models": 2 if tier == "quick" else 3, "mode": mode, "exc": exc}, "label": f"{mode}/all_exc/{exc}"})
+    for k, mode in enumerate(("run_yaml_exposure", "run_yaml_observation")):
+        for steps in (1, 2):
+            out.append({"fn": "crash", "kwargs": {"steps": steps, "models": 2, "mode": mode, "exc": names[(3 * k + steps) % len(names)]}, "label": f"{mode}/steps={steps}"})
     # every kind of swept value (the notes render it, whatever it is)
     for k, pkind in enumerate(PVALS):
         if pkind != "int":
@@ -140,6 +143,9 @@ def _drive(steps, models, mode, exc_cls, fault, log, pkind="int"):
 
     vxprobes.reset(hook)
     times = [float(i + 1) for i in range(steps)]
+    if mode.startswith("run_yaml"):
+        # the command-line / notebook entry point pyxel.run(<file>): same pipeline written as a YAML file without an outputs section
+        return _drive_yaml(mode, layout, times, pkind, marker)
     if mode == "exposure":
         m = Exposure(readout=Readout(times=times))
     else:
@@ -151,6 +157,43 @@ def _drive(steps, models, mode, exc_cls, fault, log, pkind="int"):
         caught = e
     finally:
         vxprobes.reset(None)
+    return caught, result, marker, layout
+
+
+def _drive_yaml(mode, layout, times, pkind, marker):
+    import tempfile
+
+    import pyxel
+    import yaml
+
+    groups: dict = {"scene_generation": [{"name": "init", "func": "vxprobes.init_buckets", "enabled": True}]}
+    for j, (g, nm) in enumerate(layout):
+        groups.setdefault(g, []).append({"name": nm, "func": ("vxprobes.probe", "vxprobes.probe_a")[j % 2], "enabled": True, "arguments": {"tag": j, "p": 0}})
+    cfg = {"ccd_detector": {"geometry": {"row": 2, "col": 2, "total_thickness": 40.0, "pixel_vert_size": 10.0, "pixel_horz_size": 10.0},
+                            "environment": {"temperature": 200.0}, "characteristics": {}},
+           "pipeline": groups}
+    if mode == "run_yaml_exposure":
+        cfg["exposure"] = {"readout": {"times": times}}
+    else:
+        cfg["observation"] = {"mode": "product", "readout": {"times": times}, "parameters": [{"key": "pipeline.photon_collection.m0.arguments.p", "values": list(_pvals(pkind))}]}
+    tmp = tempfile.mkdtemp(prefix="vx_c09_")
+    path = os.path.join(tmp, "config.yaml")
+    with open(path, "w") as fh:
+        yaml.safe_dump(cfg, fh)
+    caught, result = None, None
+    cwd = os.getcwd()
+    os.chdir(tmp)
+    try:
+        result = pyxel.run(path)
+        result = "completed"  # pyxel.run returns None when no outputs are configured: completion is the result
+    except Exception as e:  # noqa: BLE001
+        caught = e
+    finally:
+        os.chdir(cwd)
+        vxprobes.reset(None)
+        import shutil
+
+        shutil.rmtree(tmp, ignore_errors=True)
     return caught, result, marker, layout
 
 
@@ -168,7 +211,7 @@ def crash(steps, models, mode, exc, pkind="int"):
     log: list = []
     caught, result, marker, layout = _drive(steps, models, mode, EXC[exc], (r, i, j), log, pkind)
     lab = f"steps={steps},models={models},{exc}" + ("" if pkind == "int" else f",{pkind}")
-    nruns = 1 if mode == "exposure" else 3
+    nruns = 1 if mode in ("exposure", "run_yaml_exposure") else 3
     total = nruns * steps * models
     if caught is None:
         # no probe matched the fault point: it lies outside the run
@@ -186,7 +229,7 @@ def crash(steps, models, mode, exc, pkind="int"):
     full = [(rr, ss, mm) for rr in range(nruns) for ss in range(steps) for mm in range(models)]
     k = full.index((fr, fi, fj))
     vx.prove(f"C09/{mode}/no_later_model/{lab}", [t[:3] for t in log] == full[: k + 1])
-    if mode == "observation":
+    if mode in ("observation", "run_yaml_observation"):
         val = _pvals(pkind)[fr]
         shown = [str(v) for v in val] if pkind == "list" else [str(val)]
         vx.prove(f"C09/observation/notes_params/{lab}", ("pipeline.photon_collection.m0.arguments.p" in notes) and all(x in notes for x in shown))
@@ -425,7 +468,7 @@ def replay(oid, kwargs, model, data):
         steps, models, mode, exc = kwargs["steps"], kwargs["models"], kwargs["mode"], kwargs["exc"]
         pkind = kwargs.get("pkind", "int")
         caught, result, marker, layout = _drive(steps, models, mode, EXC[exc], f, log, pkind)
-        nruns = 1 if mode == "exposure" else 3
+        nruns = 1 if mode in ("exposure", "run_yaml_exposure") else 3
         inside = 0 <= f[0] < nruns and 0 <= f[1] < steps and 0 <= f[2] < models
         det = {"fault": list(f), "caught": repr(caught), "notes": getattr(caught, "__notes__", None), "calls": len(log)}
         if not inside:
@@ -436,7 +479,7 @@ def replay(oid, kwargs, model, data):
         bad = bad or (f"'{g}'" not in notes) or (f"'{nm}'" not in notes)
         full = [(rr, ss, mm) for rr in range(nruns) for ss in range(steps) for mm in range(models)]
         bad = bad or [t[:3] for t in log] != full[: full.index(f) + 1]
-        if mode == "observation":
+        if mode in ("observation", "run_yaml_observation"):
             val = _pvals(pkind)[f[0]]
             shown = [str(v) for v in val] if pkind == "list" else [str(val)]
             bad = bad or any(x not in notes for x in shown)
